@@ -194,7 +194,11 @@ def oracle_geo(ctx):
     ctx.obligation(bad == 0, "oracle:gon2deg/deg2gon")
     # literal d-m-s strings
     lits = {"57-32-28.428": 63.9347, "-0-30-00": -0.5 / 0.9, "+10-00-00": 10 / 0.9, "0-00-00": 0.0, " 12-30-00.5 ": (12.5 + 0.5 / 3600) / 0.9,
-            "12-30": None, "12-30-": None, "12--30-10": None, "a-b-c": None, "": None, "-": None, "12-30-10x": None, "1 2-30-10": None, "12-30-1e1": (12.5 + 10 / 3600) / 0.9}
+            "12-30": None, "12-30-": None, "12--30-10": None, "a-b-c": None, "": None, "-": None, "12-30-10x": None, "1 2-30-10": None, "12-30-1e1": (12.5 + 10 / 3600) / 0.9,
+            # "optional leading sign" (doc/gama-local-input.texi): one sign
+            "-+5-00-00": None, "+-5-00-00": None, "--5-00-00": None, "++5-00-00": None, "-5-00-00": -5 / 0.9,
+            # gon2deg(x, 1, p) itself pads with blanks after the sign: that form must keep reading back
+            "-  5-00-00": -5 / 0.9}
     inp = "".join("d2g %s\n" % (k.encode().hex() or "-") for k in lits)
     rc, out, err = vlib.sh([exe], inp=inp, timeout=60)
     for (k, want), ln in zip(lits.items(), out.split("\n")):
